@@ -401,6 +401,30 @@ fn helper(args: &[&str], envs: &[(&str, &str)], limit: Duration) -> Result<Optio
     }
 }
 
+/// A service that is gone before it accepted anything behaves like a dead service on any transport:
+/// the client gets an error (at construction or at the first call), it does not wait for ever.
+pub fn run_case_dead(kind: &str, cmd: &str) -> Result<(), Fail> {
+    let mode = if kind == "activate" { "activate-client" } else { "bridge-client" };
+    let mut res = None;
+    for _attempt in 0..2 {
+        res = helper(&[mode, "0", cmd], &[("VL_IDLE", "1")], Duration::from_secs(15))?;
+        if res.is_some() {
+            break;
+        }
+    }
+    let Some((_ok, out)) = res else {
+        return Err(Fail::new(
+            format!("spawn/{}-dead-service-hangs", kind),
+            format!("Connection::with_{}({:?}) - a command that ends without serving - followed by one call did not come back within 15 s, twice (a dead service yields an error on every other transport)", kind, cmd),
+        ));
+    };
+    let v: Value = serde_json::from_str(out.trim()).unwrap_or(Value::Null);
+    if v["call_ok"] == json!(true) {
+        return Err(Fail::new(format!("spawn/{}-dead-service-answers", kind), format!("command {:?} serves nothing, yet the call succeeded: {}", cmd, out.trim())));
+    }
+    Ok(())
+}
+
 pub fn run_case_b(kind: &str, placeholders: usize, dir: &std::path::Path) -> Result<(), Fail> {
     let dump = dir.join(format!("dump-{}-{}.json", kind, placeholders));
     let _ = std::fs::remove_file(&dump);
@@ -553,7 +577,11 @@ fn replay(ctx: &mut Ctx, v: &Value) {
     ctx.force_sample(cj.clone());
     let scratch = Scratch::new("c16r");
     let res = if let Some(k) = cj.get("spawn").and_then(|k| k.as_str()) {
-        run_case_b(k, cj["placeholders"].as_u64().unwrap_or(0) as usize, &scratch.path)
+        if let Some(cmd) = cj["dead_command"].as_str() {
+            run_case_dead(k, cmd)
+        } else {
+            run_case_b(k, cj["placeholders"].as_u64().unwrap_or(0) as usize, &scratch.path)
+        }
     } else if let Some(row) = cj.get("matrix").and_then(|m| m.as_array()) {
         let g = |i: usize| row.get(i).and_then(|x| x.as_str()).unwrap_or("-").to_string();
         run_case_c(&g(0), &g(1), &g(2), &g(3), &scratch.path, 0).map(|_| ())
@@ -609,6 +637,13 @@ pub fn run(args: &Args) -> ! {
                     break; // every further configuration would cost another 2 x 20 s
                 }
             }
+        }
+    }
+    for (kind, cmd) in [("activate", "exit 3"), ("activate", "/nonexistent/program --serve"), ("activate", "true"), ("bridge", "exit 3"), ("bridge", "/nonexistent/program")] {
+        ctx.case(Some(hash64(&(kind, cmd, "dead"))));
+        ctx.class(&format!("B:with_{}(command that serves nothing)", kind));
+        if let Err(f) = pt::guard(|| run_case_dead(kind, cmd)) {
+            ctx.violation(&f.key, &f.what, "c16-b", json!({"spawn": kind, "dead_command": cmd}));
         }
     }
     // (C)
